@@ -7,10 +7,22 @@ import itertools, random
 
 def families(tier):
     if tier == "quick":
-        return D.conv_family(SEED + 30, 30, max_named=3, maxlen=3, budget=2500) + \
-               D.pos_family(SEED + 31, 12, maxlen=3, budget=2500) + D.cmd_family(SEED + 32, 8, maxlen=3, budget=2500)
-    return D.conv_family(SEED + 30, 120, max_named=4, maxlen=4, budget=25000) + \
-        D.pos_family(SEED + 31, 40, maxlen=4, budget=25000) + D.cmd_family(SEED + 32, 30, maxlen=4, budget=25000)
+        fam = D.conv_family(SEED + 30, 30, max_named=3, maxlen=3, budget=2500) + \
+              D.pos_family(SEED + 31, 12, maxlen=3, budget=2500) + D.cmd_family(SEED + 32, 8, maxlen=3, budget=2500)
+        bud = 2500
+    else:
+        fam = D.conv_family(SEED + 30, 120, max_named=4, maxlen=4, budget=25000) + \
+            D.pos_family(SEED + 31, 40, maxlen=4, budget=25000) + D.cmd_family(SEED + 32, 30, maxlen=4, budget=25000)
+        bud = 25000
+    # the help and version flags are named options as well: asked in either order, among the others
+    k = 0
+    for d in fam:
+        if d["version"]:
+            k += 1
+            if k % 2:
+                d["alpha"]["extras"] = sorted(set(d["alpha"]["extras"]) | {"help", "ver"})
+                D.trim_to_budget(d, bud)
+    return fam
 
 
 def gen(rnd, d):
